@@ -301,11 +301,24 @@ func (p *printVisitor) EnterOperationDefinition(ref int) {
 	hasName := p.document.OperationDefinitions[ref].Name.Length() > 0
 	hasVariables := p.document.OperationDefinitions[ref].HasVariableDefinitions
 	hasDirectives := p.document.OperationDefinitions[ref].HasDirectives
+	hasDescription := p.document.OperationDefinitions[ref].Description.IsDefined
+	// a type system definition in front of the operation (mixed documents) may end without a body:
+	// the shorthand's opening brace would then be read as that definition's body (`enum E @d {…}`)
+	followsTypeSystemDefinition := false
+	for i := range p.document.RootNodes {
+		if p.document.RootNodes[i].Kind == ast.NodeKindOperationDefinition && p.document.RootNodes[i].Ref == ref {
+			if i > 0 {
+				prev := p.document.RootNodes[i-1].Kind
+				followsTypeSystemDefinition = prev != ast.NodeKindOperationDefinition && prev != ast.NodeKindFragmentDefinition
+			}
+			break
+		}
+	}
 
 	switch p.document.OperationDefinitions[ref].OperationType {
 	case ast.OperationTypeQuery:
-		// the shorthand form is only valid for a query without name, variables and directives
-		if hasName || hasVariables || hasDirectives {
+		// the shorthand form is only valid for a query without name, variables, directives and description
+		if hasName || hasVariables || hasDirectives || hasDescription || followsTypeSystemDefinition {
 			p.write(literal.QUERY)
 		}
 	case ast.OperationTypeMutation:
